@@ -471,11 +471,10 @@ fn sequences_pair(case: &mut Case, a: f64, b: f64, n: usize) -> Result<(), Strin
 }
 
 fn sequences(case: &mut Case) -> Result<(), String> {
-    // usually 2..=64 points; one case in eight 65..=4000 (log-uniform); one in 6000 just above 2^24 points (the first
-    // count at which an index no longer fits a 24-bit mantissa)
+    // usually 2..=64 points; one case in eight 65..=4000 (log-uniform).  (Counts above 2^24 were tried and dropped: one
+    // failing case of that size makes shrinking - hundreds of re-evaluations of a second each - take hours)
     let n = case.src.urange(2, 64);
     let n = match case.src.below(6000) {
-        0 => (1usize << 24) + 2 + case.src.usize_below(40),
         k if k < 750 => (65.0 * (4000.0f64 / 65.0).powf(case.src.f64_in(0.0, 1.0))) as usize,
         _ => n,
     };
@@ -573,7 +572,7 @@ impl Prop for C15 {
         "case families: (0-2) arithmetic over {rationals, small-integer f64, Gaussian-integer Complex<f64>}, length 0..=64: every element-wise operator in borrowed/owned form, scalar ops, all compound assignments, dot, constructors, \
          sum_slice/product_slice for every (start,end) when n <= 12 and random ranges beyond, sum/product, abs, norm_1, against a Vec model, exactly; (3) Vector<Complex<Rat>> conj/real and Complex<f64> norm_inf; \
          (4) f64 norms with |x| in {0} U [1e-100,1e100] (p-norm: [1e-30,1e30], p in [1,8]) against double-double, and the norm laws (non-negativity, homogeneity, triangle inequality, inf <= 2 <= 1 and inf <= p <= 1) with a few-ulp slack, f64*Vector; p is an integer, continuous in [1,8], or 1+d / 2+-d with d = 1e-12..1e-5; (4b) norm_inf and norm_1 over the whole finite range (|x| in 1e-300..1e300, all tiny / all huge / mixed); \
-         (5) histories of <= 40 edits (push, push_front, insert, pop, swap, resize, assign, clear, sort, sort_by, find, index write, clone) against a Vec model compared after every step; (6) linspace/powspace with 2..=64 points (one case in eight 65..=4000, one in 6000 just above 2^24), integer exponents 1..=8 half of the time: \
+         (5) histories of <= 40 edits (push, push_front, insert, pop, swap, resize, assign, clear, sort, sort_by, find, index write, clone) against a Vec model compared after every step; (6) linspace/powspace with 2..=64 points (one case in eight 65..=4000), integer exponents 1..=8 half of the time: \
          end points from scale menus and, one case in four, only 0..299 ulps apart; first element exactly a, last within 8 eps*max(|a|,|b|) of b, weakly monotone, elements within rounding of the defining formula; random(n) in [0,1). sum/product/norm_inf/find on the empty vector are not asserted. \
          Non-trivial: history of >= 6 steps with a size-changing step before an index-dependent one; reductions over a strict sub-range of a vector of length >= 3; every sequence case. distinct = distinct decoded choice sequence."
             .into()
